@@ -107,3 +107,9 @@ Corollary hom_rate_dip_shift n g a t0 t0' gs gs' tau tau' :
 Proof.
   intros Hg H1 H2 E. rewrite (hom_rate_dip n g a t0 Hg gs H1), (hom_rate_dip n g a t0' Hg gs' H2), E. reflexivity.
 Qed.
+
+Theorem hom_rate_dip_both n g a t0 gs :
+  square_sym n g -> (forall k, (k < n * n)%nat -> gs k = transpose_arr n (separable_phase g a t0) k) ->
+  (forall tau, hom_rate g (separable_phase g a t0) gs tau None = dip_rate g a (tau - t0)) /\
+  (rsum n (fun s => cnorm2 ROps (a s)) <> 0 -> hom_rate g (separable_phase g a t0) gs t0 None = 0).
+Proof. intros Hg Hgs. split; [apply (hom_rate_dip n g a t0 Hg gs Hgs)|apply (hom_rate_dip_zero n g a t0 Hg gs Hgs)]. Qed.
